@@ -58,3 +58,20 @@ def impl_of(trait_method, self_ty):
     """path of `<self_ty as Trait>::method`"""
     tr, m = trait_method.rsplit("::", 1)
     return "<%s as %s>::%s" % (self_ty, tr, m)
+
+
+IO_METHODS = ("::write_all", "::flush", "::seek", "::stream_position", "::write", "::read_exact", "::read_to_end", "::read")
+FS_FUNCS = {"std::fs::File::sync_all", "std::fs::File::set_len", "std::fs::rename", "std::fs::File::create", "std::fs::File::open",
+            "std::fs::remove_file", "std::fs::remove_dir_all", "std::fs::create_dir_all", "std::fs::read", "std::fs::write",
+            "std::fs::OpenOptions::open"}
+
+
+def is_io(c):
+    """std::io Read/Write/Seek methods (trait paths and the Box<W> forwarding impls) and std::fs functions."""
+    if c in FS_FUNCS:
+        return True
+    return ("std::io::" in c) and c.endswith(IO_METHODS)
+
+
+def is_storage_or_io(c):
+    return c in STORAGE_EFFECTS or is_io(c)
